@@ -141,6 +141,9 @@ class Tally:
 # worker side
 
 def worker_main(prop, cases_path, out_path, deadline):
+    # this file runs as __main__ in the worker while the property modules import it as vf.core: catch the exception classes of both
+    import vf.core as _pkg
+    Inconclusive_, Violation_ = (Inconclusive, _pkg.Inconclusive), (Violation, _pkg.Violation)
     mod = importlib.import_module(f'vf.props.{prop.lower()}')
     out = open(out_path, 'a')
 
@@ -160,7 +163,7 @@ def worker_main(prop, cases_path, out_path, deadline):
         if hasattr(mod, 'setup'):
             mod.setup()
         emit(dict(setup='ok'))
-    except Inconclusive as e:
+    except Inconclusive_ as e:
         emit(dict(setup='inconclusive', reason=str(e)))
         return
     except Exception:
@@ -177,9 +180,9 @@ def worker_main(prop, cases_path, out_path, deadline):
         t0 = time.time()
         try:
             res = mod.run_case(case)
-        except Inconclusive as e:
+        except Inconclusive_ as e:
             res = inconclusive(str(e))
-        except Violation as v:
+        except Violation_ as v:
             res = violated(v.mechanism, v.detail)
         except Exception as e:
             # An exception that travelled through the subject's code on an input the harness considers valid is
